@@ -234,7 +234,9 @@ def main(run):
     from sasmodels.resolution2d import Pinhole2D
     for acc in ["low", "med", "high"] + (["xhigh"] if thorough else []):
         for rep in range(2 if not thorough else 6):
-            qx = np.linspace(-0.1, 0.1, rng.randint(3, 7)); qy = np.linspace(-0.08, 0.12, rng.randint(3, 6))
+            # an odd number of columns puts pixels exactly on qx = 0 (and qy = 0 for the symmetric range)
+            qx = np.linspace(-0.1, 0.1, rng.choice([3, 5, 7]) if rep % 2 == 0 else rng.randint(3, 7))
+            qy = np.linspace(-0.08, 0.12, rng.randint(3, 6)) if rep % 2 else np.linspace(-0.09, 0.09, rng.choice([3, 5]))
             data = empty_data2D(qx, qy, resolution=rng.uniform(0.01, 0.2))
             if rep % 2:
                 data.dqx_data = np.abs(data.dqx_data) * rng.uniform(0.5, 3); data.dqy_data = np.abs(data.dqy_data) * rng.uniform(0.2, 2)
@@ -249,7 +251,22 @@ def main(run):
                 elif not np.allclose(flat, 2.5, rtol=1e-13, atol=0):
                     run.add(Finding("C03:2d:constant", "Pinhole2D %s: flat intensity returned as %r" % (acc, flat[:3]), desc))
                 else:
-                    distinct.add(("2d", acc, rep))
+                    # every pixel's sampling cloud is centred on the pixel (or on its point reflection -q, which is the
+                    # same for I(-q) = I(q)): the weighted mean of the cloud coordinates is +-(qx, qy), pixels on the
+                    # axes included; and with zero widths an even theory is returned exactly
+                    mx = res.apply(np.asarray(res.q_calc[0])); my = res.apply(np.asarray(res.q_calc[1]))
+                    dqx_, dqy_ = np.asarray(res.qx_data), np.asarray(res.qy_data)
+                    sc_ = np.abs(dqx_) + np.abs(dqy_) + 1e-300
+                    off = np.maximum(np.abs(np.abs(mx) - np.abs(dqx_)), np.abs(np.abs(my) - np.abs(dqy_))) / sc_
+                    cross = np.abs(mx * dqy_ - my * dqx_) / sc_ ** 2
+                    stats["two_d_centroids"] = stats.get("two_d_centroids", 0) + len(mx)
+                    stats["two_d_on_axis_pixels"] = stats.get("two_d_on_axis_pixels", 0) + int(np.sum((dqx_ == 0) | (dqy_ == 0)))
+                    if np.any(off > 1e-9) or np.any(cross > 1e-9):
+                        j = int(np.argmax(np.maximum(off, cross)))
+                        run.add(Finding("C03:2d:centre", "Pinhole2D %s: the sampling cloud of the pixel (%.6g, %.6g) is centred on (%.6g, %.6g): the theory is not requested around the data point" % (
+                            acc, dqx_[j], dqy_[j], mx[j], my[j]), desc))
+                    else:
+                        distinct.add(("2d", acc, rep))
             except Exception as exc:  # noqa
                 run.add(Finding("C03:2d:construct", "Pinhole2D %s raised %r" % (acc, exc), desc))
     # ---------------- scale and background pass through smearing linearly (DirectModel)
